@@ -21,6 +21,7 @@ PROFILES = {
     'composed': lambda rnd: sp.gen_composed(rnd),
     'deco': lambda rnd: sp.gen_deco(rnd),
     'fixrec0': lambda rnd: sp.gen_fixrec0(rnd),
+    'adaptive': lambda rnd: sp.gen_adaptive(rnd),
     'tuplelabels': lambda rnd: sp.gen_tuplelabels(rnd),
     'isolate': lambda rnd: sp.gen_isolate(rnd),
     'isolate_sto': lambda rnd: sp.gen_isolate(rnd, 'sto'),
